@@ -8,6 +8,7 @@ import FeedVerif.Model.EncDriver
 import FeedVerif.Model.DoctypeDriver
 import FeedVerif.Model.SanDriver
 import FeedVerif.Model.MixinDriver
+import FeedVerif.Model.ApiDriver
 /-!
 Model driver: one operation per input line `<model> <op> <fields…>`, one canonical output line per
 operation.  Run with `lake env lean --run Main.lean`.
@@ -24,6 +25,7 @@ def stepLine (st : DState) (line : String) : DState × String :=
   match (line.trimAscii.toString.splitOn " ").filter (· ≠ "") with
   | "dict" :: rest => let (s, o) := Dict.driverStep st.dict rest; ({ st with dict := s }, o)
   | "uri" :: rest => (st, Uri.driverStep rest)
+  | "api" :: rest => (st, Api.driverStep rest)
   | "opts" :: rest => (st, Options.driverStep rest)
   | "css" :: rest => (st, Css.driverStep rest)
   | "date" :: rest => (st, Date.driverStep rest)
